@@ -5,6 +5,8 @@ import vlib
 ID = 'C14'
 HARNESS_DIR = 'harness-sim'
 HARNESS_BIN = os.path.join(vlib.CACHE, 'target-sim', 'debug', 'dcsim')
+EXTRA_HARNESS_DIRS = ['harness']
+HARNESS_BIN_BY_DOMAIN = {'rpc': vlib.HARNESS_BIN}      # the real transport (hyper over loopback TCP) through a byte proxy
 RULE = ('one case = one turmoil simulation of the real datacake-rpc client and server (feature `simulation`): 1-4 clients x 1-6 requests each (sequential and concurrently in flight, handler delays 0 / 5 / 300 / 2500 ms, '
         'with a 2 s client timeout or none; plus long outages: 35-60 requests on one channel through a partition lasting tens of seconds) under a seeded schedule of partition / hold / release / repair events placed before connection set-up, between requests, during handler runs and before replies; '
         'the observed event trace (send, handler begin/end, completion with outcome and simulated time) must be a run of the Lean protocol model RpcNet (trace inclusion = the correspondence; protocol_runs_satisfy_spec: every run => Spec) and is independently checked by the Lean monitor (monitor_sound: accepted => Spec): every completion is the reply computed for that very '
@@ -31,6 +33,8 @@ def augment(case, impl):
 
 
 def canon(line, out):
+    if line.startswith('proxy') and out.startswith('proxy setup-failed'):
+        return 'proxy ' + {'none': 'reply', 'close': 'conn'}.get(line.split()[3], 'timeout') + ' in-time'
     if line.startswith('run'):
         return 'trace' if out.startswith(('trace done', 'trace')) and 'simerr' not in out and not out.startswith('trace\t') else out
     return out
@@ -66,6 +70,25 @@ def generate(rng, tier):
         tau = rng.choice([300, 500])
         faults = rng.choice(['0P0', '0P0,%dX0' % rng.choice([12000, 20000, 30000]), '%dP0,%dX0' % (rng.choice([400, 3000]), rng.choice([25000, 40000])), '0H0,%dL0' % rng.choice([15000, 30000])])
         cases.append(['case %d sim' % (n + k), 'run %d 1 %d %d %s' % (rng.below(1 << 31), reqs, tau, faults), 'end'])
+    # faults while the BODY of a reply is in flight (the response head has arrived): a reply larger than the initial HTTP/2 window
+    # needs several flights; the link is held / partitioned between them (simulated network, latency pinned to 10 ms: request
+    # arrives at +10, head and first flight at +20), or - on the real transport, through a byte proxy - goes quiet or is torn
+    # down after a byte budget.  (An unharmed multi-flight reply is not generated in the simulator: turmoil 0.4 panics on it.)
+    base = len(cases)
+    nb = dict(quick=24, thorough=600, search=80)[tier]
+    for k in range(nb):
+        tau = rng.choice([500, 1000, 2000])
+        size = rng.choice([100000, 200000, 1000000])
+        at = rng.choice([2, 5, 10, 12, 15, 18, 20, 22, 25, 28])
+        cases.append(['case %d sim' % (base + k), 'runbig %d %d %s %d' % (tau, size, rng.choice('HP'), at), 'end'])
+    cases.append(['case %d sim' % (base + nb), 'runbig 2000 1000 - 0', 'end'])
+    base = len(cases)
+    for k in range(dict(quick=8, thorough=120, search=16)[tier]):
+        tau = rng.choice([300, 500, 800])
+        size = rng.choice([1 << 20, 4 << 20])
+        fault = rng.choice(['hold', 'close', 'close', 'none'])
+        budget = rng.choice([0, 1, 4096, 32768, size // 4])
+        cases.append(['case %d rpc' % (base + k), 'proxy %d %d %s %d' % (tau, size, fault, budget), 'end'])
     return cases
 
 
@@ -75,10 +98,17 @@ def oracle(case, impl):
         if line.startswith('run'):
             if out.startswith(('crash', 'panic')) or 'simerr' in out:
                 bad.append('%s: %s' % (line, out[:100]))
+        if line.startswith('proxy'):
+            t, o = line.split(), out.split()
+            if out.startswith('proxy setup-failed'): continue      # the machine, not the property
+            if len(o) != 3 or o[2] != 'in-time': bad.append('%s: %s (a client with a timeout gets an answer or an error within that bound)' % (line, out))
+            elif o[1] not in ('reply', 'conn', 'timeout'): bad.append('%s: %s (neither the handler reply nor a connection/timeout error)' % (line, out))
     return bad
 
 
 def nontrivial(case, impl):
+    if case[1].startswith('proxy'): return case[1].split()[3] != 'none'
+    if case[1].startswith('runbig'): return case[1].split()[3] != '-'
     return case[1].split()[5] != '-' and any(' D:' in o for o in impl)
 
 
@@ -86,7 +116,9 @@ def stats(verdicts):
     d = {'runs': 0, 'events': 0, 'replies': 0, 'conn_errors': 0, 'timeouts': 0, 'handler_runs': 0, 'with_faults': 0}
     for v in verdicts:
         for l, o in zip(v['case'], v['impl']):
-            if l.startswith('run') and o.startswith('trace'):
+            if l.startswith('proxy'): d['real_transport_body_faults'] = d.get('real_transport_body_faults', 0) + 1
+            if l.startswith('runbig'): d['sim_body_faults'] = d.get('sim_body_faults', 0) + 1
+            if l.startswith('run ') and o.startswith('trace'):
                 d['runs'] += 1
                 ev = o.split()[3:]
                 d['events'] += len(ev)
